@@ -1,0 +1,10 @@
+//go:build !verif
+
+package cache
+
+const verifOn = false
+
+type verifEntryState struct{}
+
+func verifNewEntry() *cacheEntry      { return nil }
+func verifReleaseEntry(e *cacheEntry) {}
